@@ -53,7 +53,8 @@ def plan(tier, seed):
         for inp in inputs:
             for i in range(reps):
                 P.add("prox", cls=cls, inp=inp, pseed=int(rng.integers(1 << 30)),
-                      cplx=bool(rng.random() < 0.6))
+                      cplx=bool(rng.random() < 0.6), single=bool(rng.random() < 0.2),
+                      npscalar=bool(rng.random() < 0.25))
     return P.cases
 
 
@@ -300,7 +301,11 @@ def run_case(case):
     else:
         y = make_input(rng, inp, shape, cplx, info,
                        alpha if np.ndim(alpha) == 0 else 1.0)
-    sig = "%s|%s|%s|%dd" % (cls, inp, "c" if np.iscomplexobj(y) else "r", len(shape))
+    if case.get("single") and "Psd" not in cls:
+        y = y.astype(np.complex64 if np.iscomplexobj(y) else np.float32)
+    if case.get("npscalar") and np.ndim(alpha) == 0:
+        alpha = np.float64(alpha)          # NumPy scalar instead of a Python float
+    sig = "%s|%s|%s|%dd" % (cls, inp, y.dtype.char, len(shape))
     wit = dict(case)
     before = dict(STATE.count)
     y0 = y.copy()
@@ -328,10 +333,37 @@ def run_case(case):
                 type(inn).__name__, str(inn)[:200]), wit, mech="raised:" + cls)
         checks += 1
         sc = max(1.0, float(np.max(np.abs(x))) if x.size else 1.0)
-        if x2.shape != x.shape or float(np.max(np.abs(x2 - x)) if x.size else 0) > 1e-8 * sc:
+        itol = 1e-8 if y.dtype in (np.float64, np.complex128) else 1e-3
+        if x2.shape != x.shape or float(np.max(np.abs(x2 - x)) if x.size else 0) > itol * sc:
             return violated(sig, "projection is not idempotent: second application moves the "
                             "point by %.3g" % float(np.max(np.abs(x2 - x))), wit,
                             mech="idempotence:" + cls)
+    # history: the same prox object called with another step size and input (certified by
+    # the contract like every call), then the first call again: equal result - a prox object
+    # must not remember anything from earlier calls
+    if isinstance(x, np.ndarray) and x.shape == y.shape:
+        try:
+            a2 = alpha * 3.7 if np.ndim(alpha) == 0 else alpha * 0.31
+            y2 = (y0 * 0.5 + crandn(rng, shape, y0.dtype) * (0.1 + float(np.max(np.abs(y0)))
+                                                              if y0.size else 1.0))
+            if info["k"] == "psd":
+                y2 = make_psd_input(rng, "herm", shape[0], np.iscomplexobj(y0)).astype(y0.dtype)
+            if info["k"] in ("box", "real"):
+                y2 = np.real(y2).astype(y0.dtype)
+            P(a2, y2)
+            x3 = P(alpha, y0)
+        except Exception as e:
+            inn = e
+            while inn.__cause__ is not None:
+                inn = inn.__cause__
+            return violated(sig, "second/third call on the same prox object raised %s: %s" % (
+                type(inn).__name__, str(inn)[:200]), wit, mech="raised:" + cls)
+        checks += 2
+        if x3.shape != x.shape or not np.array_equal(x3, x):
+            return violated(sig, "the same prox object gives a different result for the same "
+                            "(alpha, input) after an intervening call with other arguments "
+                            "(max diff %.3g)" % float(np.max(np.abs(x3 - x))), wit,
+                            mech="history:" + cls)
     # certificate branch observed for this call (for distinctness)
     br = [k[11:] for k in STATE.count if k.startswith("proxbranch:")
           and STATE.count[k] > before.get(k, 0)]
